@@ -4,11 +4,11 @@ OUTSIDE = ('palette and run-length-coded variants, ASCII PNM (their decoders are
 ASSUMPTIONS = ['read_image through FILE* is the reference result', 'the FILE* model stands for libc']
 def queries(tier, seed):
     qs = []
-    def add(name, fmt, pix, mode, params, L, w, h, rect=(0, 0, 0, 0), cpix=None, t='quick', probe=(0, 0)):
-        d = dict(FORMAT=fmt, MODE=mode, PIX=pix)
+    def add(name, fmt, pix, mode, params, L, w, h, rect=(0, 0, 0, 0), cpix=None, t='quick', probe=(0, 0), refconv=0):
+        d = dict(FORMAT=fmt, MODE=mode, PIX=pix, REF_CONVERT=refconv)
         if cpix: d['CPIX'] = cpix
         p = [L] + list(params); p += [0] * (12 - len(p)) + [w, h] + list(rect) + list(probe)
-        qs.append(Q(name, 'C13/agree.cpp', 'h_agree', defs=d, params=p, rt=['file'], unwind=max(16, 4 * w + 4), rt_unwind=L + 4, mem_unwind=400, cdefs=dict(VP_FILE_MAX=L + 8), tier=t, timeout=300))
+        qs.append(Q(name, 'C13/agree.cpp', 'h_agree', defs=d, params=p, rt=['file'], unwind=max(16, 4 * w + 4) if not refconv else 70, unwindset=([(r'St6vector|fill_n|uninitialized|read_palette', 310)] if refconv else []) + ([(r'scanline_reader|read_palette_image', 2100)] if mode == 7 else []), rt_unwind=L + 4, mem_unwind=400, cdefs=dict(VP_FILE_MAX=L + 8), tier=t, timeout=300))
     variants = []
     for (w, h) in ((3, 2), (4, 3), (1, 1)):
         rb = ((w * 24 + 31) // 32) * 4
@@ -38,4 +38,23 @@ def queries(tier, seed):
         add('%s/name_vs_file' % vn, fmt, pix, 4, par, L, w, h, t=t0)
         add('%s/info' % vn, fmt, pix, 5, par, L, w, h, t=t0)
         if w > 1: add('%s/too_small_view' % vn, fmt, pix, 6, par, L, w, h, t=t0)
+    # palette BMP (8- and 4-bit, 4 declared colours): partial read == crop of the full converting read
+    for bpp in (8, 4):
+        for (w, h) in ((3, 2), (4, 3)):
+            rb = ((w * bpp + 31) // 32) * 4
+            par = [1, 40, bpp, 0, w, h, 4, 54 + 16, 0, 0]
+            L = 54 + 16 + h * rb
+            rects = [(x0, y0, dx, dy) for x0 in range(w) for y0 in range(h) for dx in range(1, w - x0 + 1) for dy in range(1, h - y0 + 1) if (x0, y0, dx, dy) != (0, 0, w, h)]
+            for r in rects:
+                quick = (w, h) == (3, 2) and bpp == 8 and r in ((0, 1, 3, 1), (1, 1, 1, 1), (0, 0, 3, 1), (2, 0, 1, 2))
+                add('bmp%dpal_%dx%d/partial/%d_%d_%dx%d' % ((bpp, w, h) + r), 1, 'gil::rgb8_pixel_t', 1, par, L, w, h, r, t='quick' if quick else 'thorough', refconv=1)
+    # scanline reader rows == rows of the (converting) full read, palette BMP 1/4/8 bit (rgba8 scanlines)
+    for bpp in (1, 4, 8):
+        for (w, h) in ((1, 2), (3, 2), (5, 2)):
+            rb = ((w * bpp + 31) // 32) * 4
+            ncol = 2 if bpp == 1 else 4
+            par = [1, 40, bpp, 0, w, h, ncol, 54 + 4 * ncol, 0, 0]
+            L = 54 + 4 * ncol + h * rb
+            for yy in range(h):
+                add('bmp%dpal_%dx%d/scanline/row%d' % (bpp, w, h, yy), 1, 'gil::rgba8_pixel_t', 7, par, L, w, h, (0, yy, 0, 0), t='quick' if (bpp in (1, 4) and w in (1, 3)) else 'thorough', refconv=1)
     return qs
